@@ -46,6 +46,11 @@ StructureVerdict(e) ==
   ELSE LET p == e.plurals[1] IN
   IF ~p.reachable THEN "BATCH_FORM_NOT_REACHABLE"
   ELSE IF ~p.hash_is_int \/ p.hash # e.hash \/ p.prefab # e.prefab THEN "BATCH_FORM_HASH_DIFFERS"
+  \* Plural.Average / .Sum / .Minimum / .Maximum give the singular form of the same prefab (and keep the name filter)
+  \* (a structure that has a logic type called Minimum / Maximum keeps that name for the logic type)
+  ELSE IF \E i \in 1..Len(p.methods) : /\ p.methods[i].m \notin {e.logic[j].prop : j \in 1..Len(e.logic)}
+                                       /\ (p.methods[i].cls # e.name \/ p.methods[i].prefab # e.prefab \/ p.methods[i].named # <<110, 109>>)
+       THEN "BATCH_METHOD_FORM_IS_ANOTHER_STRUCTURE"
   ELSE IF ~SlotsOK(e.numbered, e.named) THEN "NAMED_SLOT_DOES_NOT_RESOLVE_TO_ITS_NUMBER"
   ELSE IF ~SlotsOK(p.numbered, p.named) THEN "BATCH_NAMED_SLOT_DOES_NOT_RESOLVE_TO_ITS_NUMBER"
   ELSE IF ~SameSlots(e.numbered, p.numbered) \/ ~SameSlots(e.named, p.named) THEN "BATCH_FORM_SLOTS_DIFFER"
@@ -55,6 +60,7 @@ StructureVerdict(e) ==
   ELSE IF ~e.dyn.ok THEN "GENERATED_PROGRAM_DOES_NOT_COMPILE"
   ELSE IF e.dyn.lb_hash # e.hash THEN "COMPILED_BATCH_HASH_DIFFERS"
   ELSE IF e.dyn.sb_hash # e.hash THEN "COMPILED_BATCH_WRITE_HASH_DIFFERS"
+  ELSE IF \E i \in 1..Len(e.dyn.all_hashes) : e.dyn.all_hashes[i] # e.hash THEN "COMPILED_BATCH_HASH_DIFFERS_IN_SOME_FORM"
   ELSE IF \E i \in 1..Len(e.dyn.slots) : e.dyn.slots[i].got # e.dyn.slots[i].want THEN "COMPILED_SLOT_NUMBER_DIFFERS"
   ELSE "OK"
 
